@@ -247,11 +247,25 @@ def scale_fn(g):
     try:
         proj.write("p/COND", "run_experiment(name='a', run='true')\nrun_experiment(name='b', run='true')\n")
         recorded = set()
-        # //p:a gets most versions, //p:b a few with timestamps in between (so that pages / groups interleave)
-        for i in range(nrec):
-            ident = "//p:b" if i % 25 == 7 else "//p:a"
-            proj.add_version(ident, 1000 + i, files={"out.txt": b"x"})
-            recorded.add((ident, 1000 + i))
+        ties = g.flag("equal_timestamps_across_tasks")
+        if ties:
+            # three tasks recorded at identical timestamps (possible after restores): every page/group boundary splits a tie
+            for i in range(nrec // 3 + 1):
+                for ident in ("//p:a", "//p:b", "//p/q/r/s:c"):
+                    proj.add_version(ident, 1000 + i, files={"out.txt": b"x"})
+                    recorded.add((ident, 1000 + i))
+        else:
+            # //p:a gets most versions, //p:b a few with timestamps in between (so that pages / groups interleave)
+            for i in range(nrec):
+                ident = "//p:b" if i % 25 == 7 else "//p:a"
+                proj.add_version(ident, 1000 + i, files={"out.txt": b"x"})
+                recorded.add((ident, 1000 + i))
+        # recorded and unrecorded outputs in deeply nested packages
+        proj.add_version("//l1/l2/l3:deep", 77, files={"out.txt": b"x"})
+        proj.add_version("//l1/l2/l3/l4:deeper", 78, files={"out.txt": b"x"})
+        recorded.update({("//l1/l2/l3:deep", 77), ("//l1/l2/l3/l4:deeper", 78)})
+        (proj.out / "l1/l2/l3/deep.task.99").mkdir()
+        (proj.out / "l1/l2/l3/l4/deeper.task.99").mkdir()
         for j in range(nun):
             d = proj.out / "p" / ("a.task.%d" % (5000 + j))
             d.mkdir(parents=True)
